@@ -1272,7 +1272,7 @@ def c05Step (st : C05St) (x : Nat × List String × List String) : C05St :=
       let e := kvNat kv "elapsed" 0
       let ep := kvNat kv "epoch" 0
       let st := if e != st.done * st.tick then st.fail ln s!"Sim::elapsed = {e} ns after {st.done} steps of {st.tick} ns" else st
-      if ep != 1700000000000000000 + e then st.fail ln "Sim::since_epoch is not epoch + elapsed" else st
+      if ep != 1700000000123456789 + e then st.fail ln "Sim::since_epoch is not epoch + elapsed" else st
     | _ => st
   | [h, "sleep", ms] =>
     let hh := hostTok h
@@ -1295,7 +1295,7 @@ def c05Step (st : C05St) (x : Nat × List String × List String) : C05St :=
       let st := if e < k * st.tick || e > (k + 1) * st.tick then
           st.fail ln s!"h{hh}: elapsed() = {e} ns outside the window [{k * st.tick}, {(k + 1) * st.tick}] of the step it runs in" else st
       let st := if sim != hs.reg * st.tick + e then st.fail ln s!"h{hh}: sim_elapsed() {sim} is not registration time {hs.reg * st.tick} + elapsed() {e}" else st
-      let st := if ep != 1700000000000000000 + sim then st.fail ln s!"h{hh}: since_epoch() is not epoch + sim_elapsed()" else st
+      let st := if ep != 1700000000123456789 + sim then st.fail ln s!"h{hh}: since_epoch() is not epoch + sim_elapsed()" else st
       let st := if e < hs.last then st.fail ln s!"h{hh}: elapsed() went backwards" else st
       let st := match hs.armed with
         | some (e0, ms) =>
